@@ -4,7 +4,7 @@ import NotationCore.Model.Conc
 namespace DriverLib
 open Lean NotationCore NotationCore.Conc
 
-def resOf (j : Json) : E Res :=
+def resOf (j : Json) : E (Res Nat) :=
   match fldOpt j "panic" with
   | some p => do pure (.panic (← p.getNat?))
   | none => do pure (.val (← fldNat j "val"))
@@ -16,7 +16,7 @@ def schedOf (m : Nat) (order : List Nat) : List Tid :=
   List.replicate (m + 2) Tid.main ++ (order ++ rest).flatMap (fun i => [Tid.task i, Tid.task i, Tid.task i]) ++ [Tid.main, Tid.main]
 
 /-- C17 evaluated on what the implementation did -/
-def monitorConc (kind : String) (compare : Bool) (fs : List Res) (final : State) (impl : Json) : E (Option String) := do
+def monitorConc (kind : String) (compare : Bool) (fs : List (Res Nat)) (final : State Nat) (impl : Json) : E (Option String) := do
   let outcome ← fldStr impl "outcome"
   if outcome == "process-aborted" then return some "process_aborted_by_a_panic_on_a_background_goroutine"
   if (fldOpt impl "data_race").isSome then return some "data_race"
@@ -52,7 +52,7 @@ def handleConc (j impl : Json) : E Json := do
   let order ← natList j "order"
   let kind ← fldStr j "kind"
   let compare ← fldBool j "compare_results"
-  let e : Env := { m := m, f := fun i => fs.getD i (.val 0) }
+  let e : Env Nat := { m := m, f := fun i => fs.getD i (.val 0), root := 0 }
   let final := runSched e init (schedOf m order)
   -- the schedule is complete: nothing can move any more
   if !terminal final then throw "model: schedule did not end the call"
